@@ -174,16 +174,39 @@ def inspect_frame(frame: FrameType) -> FrameDetails:
             # we read from iframe_raw. All accesses to the
             # InterpreterFrame object are kept within this
             # consistency-checked loop for that reason.
+            #
+            # If the thread that was executing the frame exits, the memory
+            # that held its InterpreterFrame is returned to the system, and
+            # reading through our pointer would then crash the interpreter.
+            # Python only considers switching threads after a call
+            # or at a backward jump, so we compute everything that needs a
+            # function call first, and then fetch the pointer and read
+            # all the fields we need through it without making any calls
+            # in between. (Attribute access on ctypes objects doesn't count.)
+            expect_globals = id(frame.f_globals)
+            expect_builtins = id(frame.f_builtins)
+            expect_code = id(frame.f_code)
+            expect_frame_obj = (0, id(frame))
+
             iframe_raw = frame_raw.f_frame.contents
-            assert iframe_raw.f_globals == id(frame.f_globals)
-            assert iframe_raw.f_builtins == id(frame.f_builtins)
-            assert iframe_raw.f_code == id(frame.f_code)
+            raw_globals = iframe_raw.f_globals
+            raw_builtins = iframe_raw.f_builtins
+            raw_code = iframe_raw.f_code
+            raw_frame_obj = iframe_raw.frame_obj
+            stacktop_copy = iframe_raw.stacktop
+            frame_owner = iframe_raw.owner  # one of the FRAME_OWNED_BY_* constants
+            lasti_after = frame.f_lasti
+            # From here on, iframe_raw must not be dereferenced again.
+
+            assert lasti_after == lasti_before
+            assert raw_globals == expect_globals
+            assert raw_builtins == expect_builtins
+            assert raw_code == expect_code
             # frame_obj is null if this iframe is owned by the frame object (thus
             # physically contained within it), to avoid a circular reference
-            assert iframe_raw.frame_obj in (0, id(frame))
+            assert raw_frame_obj in expect_frame_obj
 
             # Figure out what portion of the stack is actually valid
-            stacktop_copy = iframe_raw.stacktop
             if stacktop_copy == -1:
                 # Frames that are currently executing have stacktop == -1.
                 # Trim the stack at the depth it would be popped to before
@@ -193,8 +216,6 @@ def inspect_frame(frame: FrameType) -> FrameDetails:
             else:
                 stack_top_offset = localsplus_offset + wordsize * stacktop_copy
                 assert stack_start_offset <= stack_top_offset <= end_offset
-
-            frame_owner = iframe_raw.owner  # one of the FRAME_OWNED_BY_* constants
 
             stack_len = (stack_top_offset - stack_start_offset) // wordsize
             stack_ptr = (ctypes.py_object * stack_len).from_address(
